@@ -9,7 +9,7 @@ NEEDS = ["is_close_to_zero_abs_tol"]
 
 
 def streams():
-    return [PB.PoolBoundsStream(), PB.FloatSumStream()]
+    return [PB.PoolBoundsStream(), PB.FloatSumStream(), PB.BoundsStreamStream()]
 
 
 ASSUMPTIONS = [
